@@ -157,6 +157,8 @@ class Run:
             yield op
             if op[0] == "seq":
                 yield from op[1]
+            if op[0] == "later":
+                yield op[3]
         for sp in self.specs.values():
             yield from sp.get("body") or []
 
@@ -322,6 +324,11 @@ class Run:
         if kind == "seq":
             for sub in op[1]:
                 self.do_op(sub)
+            return
+        if kind == "later":
+            # not an event: schedule `op[3]` now, so that its timer handle enters the loop's heap after the handles
+            # that already exist (e.g. the sleep timers of the caches added earlier in this instant)
+            self.loop.call_at(self.t0 + op[1] / 1000.0, self.run_item, op[2], op[3])
             return
         if kind in ("mk", "mkadd"):
             k = op[1]
@@ -735,6 +742,9 @@ LANES = ["pre", "at0", "at1", "hop1", "hop2", "post"]
 def lane_item(lane, op, deadline):
     t, hops = {"pre": (deadline - GRID, 0), "at0": (deadline, 0), "at1": (deadline, 0), "hop1": (deadline, 1),
                "hop2": (deadline, 2), "post": (deadline + GRID, 0)}[lane]
+    if lane == "at1":
+        # scheduled from a callback at t=0 that runs after the adds: its handle is pushed after the sleep timers
+        return [0, 1, ["later", t, hops, op]]
     return [t, hops, op]
 
 
@@ -765,8 +775,8 @@ def lanes_case(n, same_ident, pops, glob, bodies, stagger=False) -> dict:
             (script_pre if pops[i] == "at0" else script_post).append(lane_item(pops[i], ["pop", ident[0], ident[1]], d))
     if glob is not None:
         (script_pre if glob[1] == "at0" else script_post).append(lane_item(glob[1], [glob[0]], d))
-    # loop.call_at insertion order: "at0" items are inserted before the caches are added (before their sleep timers
-    # exist), everything else after
+    # heap insertion order at the deadline: "at0" handles are pushed before the caches' sleep timers exist, "at1"
+    # handles after them (via "later"); heapq is not FIFO among equal deadlines, both orders are simply observed
     adds = [[0, 0, ["mkadd", i]] for i in range(n)]
     items = script_pre + adds + script_post
     return {"family": "lanes", "specs": {str(k): v for k, v in specs.items()}, "script": items, "end": 2500,
